@@ -93,6 +93,7 @@ class TriggerHandler:
         self._config = config
         self._config.add_listener(TracepointHandlerUpdateListener(self))
         self._callbacks: ThreadLocal[Deque[CallbackContext]] = ThreadLocal(lambda: deque())
+        self._is_shutdown = False
 
     def start(self):
         """Start the trigger handler."""
@@ -135,6 +136,10 @@ class TriggerHandler:
         :param arg: the args
         :return: None to ignore other calls, or our self to continue
         """
+        # threads that were already running keep calling us after shutdown (settrace only affects the calling thread and
+        # new threads), so we have to ignore their events once we are shutdown
+        if self._is_shutdown:
+            return None
         try:
             return self._process_trace_call(frame, event, arg)
         except BaseException:
@@ -237,6 +242,7 @@ class TriggerHandler:
 
         Reset the settrace to the previous values.
         """
+        self._is_shutdown = True
         # if we did not install our trace functions (NO_TRACE), then the ones in place are not ours to remove
         if self._config.NO_TRACE:
             return
